@@ -24,13 +24,15 @@ def rand_table(rng, N):
     if rng.random() < 0.5:
         K, per, orient, entries = faces.random_expressible(rng)
         return K[0] * K[1], entries, {"K": list(K), "per": list(per), "orient": [list(o) for o in orient]}
-    nf = rng.randint(2, 6 if N == 2 else 4)
+    nf = rng.randint(2, 6 if N == 2 else (4 if N == 3 else 2))
     return nf, faces.random_pairing(rng, nf), None
 
 
 def gen_case(rng, cid, ev="FacePad", nmax=3, maxelems=260, vector=None, force_both=False):
     while True:
         N = rng.randint(2, nmax)
+        if rng.random() < 0.05:
+            N = nmax + 1                           # now and then a larger face
         nfaces, table, decomp = rand_table(rng, N)
         if not table:
             continue
